@@ -260,6 +260,14 @@ theorem style_decoders_no_panic (data stream part : Formats.Bytes) (recs : List 
    Formats.xlsb_styles_bytes_no_panic part m, Formats.xlsx_styles_events_no_panic evs m,
    Formats.xlsx_styles_events_total evs⟩
 
+/-- xlsb formula cells (`XlsbCellsReader::next_formula`, `formula_rgce`, `Xlsb::worksheet_formula`) on ANY bytes of a
+    sheet part: no panic of the reader, the loop stays within one step per byte; the only panic `worksheet_formula`
+    can end in is `Range::from_sparse`'s own on hostile coordinates (the known finding D37) -/
+theorem xlsb_formula_cells_total (ctx : Ptg.Ctx) (bs : Xlsb.Bytes) (m : String) :
+    XlsbFormula.sheetFormulas ctx bs ≠ .panic m ∧ XlsbFormula.sheetFormulas ctx bs ≠ .outOfFuel ∧
+    XlsbFormula.worksheetFormula ctx bs ≠ .outOfFuel :=
+  ⟨C14.sheetFormulas_no_panic ctx bs m, C14.sheetFormulas_total ctx bs, (C14.worksheetFormulaXlsb_total ctx bs).1⟩
+
 /-! ## VBA -/
 
 /-- `decompress_stream` is total: bytes or an error on every byte string (after the C18 follow-up repaired the
